@@ -296,6 +296,46 @@ def replay(v, pid, cfgobj, scheds, seed, stats, known_dev=None):
     return cases
 
 
+def replay_random(v, pid, cfgobj, n, seed, stats):
+    """Seeded random gated schedules of the same programs (the driver releases a random parked actor at every step;
+    the compactor's timer is one of the choices): only the outcomes are judged, by Serial.tla."""
+    cases = []
+    for i in range(n):
+        c = to_case(f"{cfgobj.name}.r{i}", cfgobj, {"sched": []}, OPT_GRID[i % len(OPT_GRID)])
+        c["random_seed"] = seed * 100003 + i * 7919 + 1
+        c["random_steps"] = 400
+        cases.append(c)
+    outs = run_sharded("sched", cases, tag=f"{pid}-{cfgobj.name}-rnd", timeout=3400)
+    recs, meta = [], {}
+    for c, o in zip(cases, outs):
+        if "fatal" in o:
+            raise ToolError(f"sched driver: {o['fatal']}")
+        rec, integrity = obs_record(c, cfgobj, o)
+        recs.append(rec)
+        meta[rec["id"]] = (c, o, integrity)
+    verdicts = validate_obs(recs, f"{pid}-{cfgobj.name}-rnd")
+    for rec in recs:
+        c, o, integrity = meta[rec["id"]]
+        serial, reopens = verdicts[rec["id"]]
+        stats["random_schedules"] = stats.get("random_schedules", 0) + 1
+        bad = []
+        if o["deadlock"]:
+            bad.append("a session never finished (deadlock)")
+        panics = [r for rs in o["results"].values() for r in rs if r.get("panic")]
+        if panics:
+            bad.append(f"a statement panicked: {panics[0].get('err')}")
+        if not integrity:
+            bad.append("a table holds a duplicated or corrupted row")
+        if not serial:
+            bad.append("no serial order of the acknowledged statements explains the outcomes")
+        if not reopens:
+            bad.append("the store does not reopen to the same tables")
+        if bad:
+            v.violation({"config": cfgobj.name, "case": c, "observed": rec, "log": o["log"]},
+                        "random schedule: " + "; ".join(bad))
+    return cases
+
+
 def std_stats():
     return {"replayed": 0, "drift": 0, "drift_samples": [], "outcome_differs_from_spec": 0,
             "nontrivial": set()}
@@ -329,10 +369,13 @@ def check_c09(args):
         gens.append({"config": cfgobj.name, "schedules": len(scheds), "distinct": r["distinct"]})
         take = scheds if big and len(scheds) <= 6000 else sample(scheds, 6000 if big else 300, seed)
         all_cases += replay(v, pid, cfgobj, take, seed, stats)
+        replay_random(v, pid, cfgobj, 600 if big else 60, seed, stats)
     rc = v.finish()
     write_evidence(pid, tier, seed, "model_checking", {
         "states": sum(r["distinct"] for r in mc_runs), "transitions": sum(r["generated"] for r in mc_runs),
-        "traces_validated_against_impl": stats["replayed"], "evaluations": stats["replayed"],
+        "traces_validated_against_impl": stats["replayed"] + stats.get("random_schedules", 0),
+        "evaluations": stats["replayed"] + stats.get("random_schedules", 0),
+        "random_gated_schedules": stats.get("random_schedules", 0),
         "distinct_nontrivial": len(stats["nontrivial"]),
         "rule": "schedules = one TLC path into every quiescent state of Secondary.tla (2 sessions, "
                 "compactor, vacuum at yield-point granularity); each is replayed by gating the real "
